@@ -509,13 +509,13 @@ impl Pager {
 
         // We need to ensure that the frame is free
         if let Some(mem_page) = self.cache.remove(id) {
-            let page_size = self.page_size();
-
             // [MemPage::dealloc] consumes itself and creates a new MemPage with an overflow header.
             let deallocated_page = mem_page.dealloc();
 
-            // Here the write needs to write as an overflow page , regardless of the value of [P]
-            deallocated_page.with_bytes(|bytes| self.write_block(id, bytes, page_size))?;
+            // The freed page reaches the disk like every other modified page (eviction or checkpoint). Writing it
+            // through at once put it on disk ahead of the catalog change that unlinks it: after a crash the
+            // catalog still pointed at a page that no longer was a tree page and recovery could not open the database.
+            deallocated_page.mark_dirty();
             self.cache_frame(deallocated_page)?;
         };
 
